@@ -92,6 +92,13 @@ def make_b85(case, ctx):
         b = B85.from_xprv(rm.xprv(ver), bool(k & 2)) if k & 4 else B85.from_xprv(xprv=rm.xprv(ver))
     elif route == "wallet":
         b = BaseWallet(master=Prv(key=k.to_bytes(32, "big"), chain_code=c)).bip85
+    elif route == "deep-master":
+        # the master extended private key sits many levels below its own root (depth byte 250..255): BIP85 uses key and chain code only
+        deep = R.Node.from_priv(k, c, 250 + k % 6, (k >> 8) % 2 ** 32, b"\x12\x34\x56\x78")
+        if k & 64:
+            b = B85.from_xprv(deep.xprv())
+        else:
+            b = B85(master_node=Prv(key=k.to_bytes(32, "big"), chain_code=c, depth=deep.depth, index=deep.index, parent_fingerprint=deep.pfp))
     elif route in ("derived-node", "derived-node-wallet"):
         # the BIP85 master is a node object the library derived itself: it has a live parent and siblings
         top = Prv(key=k.to_bytes(32, "big"), chain_code=c)
@@ -174,7 +181,7 @@ def gen_apps(tier):
         return {"app": app, "param": params[p % len(params)], "index": index, "k": k, "c": c, "route": route, "kwargs": kw}
     return st.builds(mk, st.sampled_from(sorted(PARAMS)), st.integers(0, 1000),
                      S.normal_indexes(), S.scalars(), S.chain_codes(),
-                     st.sampled_from(["direct", "direct", "from_xprv", "wallet", "key33", "paper-tprv", "derived-node", "derived-node-wallet", "from_xprv-slip132"]), st.booleans())
+                     st.sampled_from(["direct", "direct", "from_xprv", "wallet", "key33", "paper-tprv", "derived-node", "derived-node-wallet", "from_xprv-slip132", "deep-master"]), st.booleans())
 
 
 def nt_app(case):
